@@ -170,10 +170,11 @@ theorem finish_sec (x : RState) (a' : Nat) (opt : Option EOpt) (tsig : Option Ts
     | none => rfl
     | some t =>
       simp only
-      have e : ({ x with sec := a' } : RState).releaseReserved.writeHeader.addRRset ConstsC03.secADDITIONAL (tsigRRset t)
-          = x.releaseReserved.writeHeader.addRRset ConstsC03.secADDITIONAL (tsigRRset t) := by
+      have e : ({ ({ x with sec := a' } : RState).releaseReserved.writeHeader with tbl := [] } : RState).addRRset
+            ConstsC03.secADDITIONAL (tsigRRset t)
+          = ({ x.releaseReserved.writeHeader with tbl := [] } : RState).addRRset ConstsC03.secADDITIONAL (tsigRRset t) := by
         rw [secADD]
-        exact addRRset3_sec x.releaseReserved.writeHeader a' _ hx ha
+        exact addRRset3_sec ({ x.releaseReserved.writeHeader with tbl := [] } : RState) a' _ hx ha
       rw [e]
 
 /-! ### cutting a message to its first `k` record sets -/
@@ -207,6 +208,7 @@ namespace Model
 
 /-- renderer state when the section loops start: header placeholder written, reserves taken -/
 def Message.base (m : Message) (L a b : Nat) : Except RErr RState :=
+  if a + b > L then .error .tooBig else
   match (RState.init m.id m.flags L m.origin).reserve a with
   | .error e => .error e
   | .ok r => r.reserve b
@@ -220,6 +222,9 @@ theorem renderSections_eq (m : Message) (L : Nat) (pt : Bool) (a b : Nat) :
         | .error e => .error e
         | .ok (r, big) => r.afterItems big pt := by
   unfold Message.renderSections Message.base
+  by_cases hfit : a + b > L
+  · simp [hfit]
+  simp only [hfit, if_false]
   cases (RState.init m.id m.flags L m.origin).reserve a with
   | error e => rfl
   | ok r =>
